@@ -588,6 +588,10 @@ def gen_C09(rng, tier, changed):
                     ops.append(op('resize', 1, r, c))
                 ops.append(op('size', 0))
                 cases.append(Case(f'C09-{r}x{c}o{order}t{k}', ops, 'tr'))
+                # the same on zero-sized elements with a destructor: what resize drops and creates is counted by the
+                # ledger (gap found with seeded change C09f)
+                if k % 2 == 0 and tr_ * tc <= 64:
+                    cases.append(Case(f'C09-{r}x{c}o{order}t{k}z', ops, 'zd'))
     # failed in-place operations leave everything untouched
     n = 150 if tier == 'quick' else 1200
     for i in range(n):
@@ -1151,11 +1155,18 @@ def gen_C06(rng, tier, changed):
             cases.append(Case(f'C06-{r}x{c}o{order}', ops, 'tr'))
             if (r + c + order) % 2 == 0 or tier != 'quick':
                 cases.append(Case(f'C06-{r}x{c}o{order}b', ops, 'b1'))
+            # zero-sized elements: the mutable views count instead of pointing (lengths and item counts from either end;
+            # gap found with seeded change C06f)
+            if (r + c + order) % 2 == 1 or tier != 'quick':
+                cases.append(Case(f'C06-{r}x{c}o{order}z', ops, rng.choice(['unit', 'zd'])))
     return cases
 
 
 def oracle_C06(case, hlines):
     """direct oracle: every row/column view yields exactly the logical row/column, from either end, with exact lengths"""
+    if case.elem in ('unit', 'zd'):
+        # indistinguishable elements: counts and lengths of the mutable outer / inner iterators only
+        return oracle_C03(case, hlines)
     out = []
     ops = [o for o in case.ops if o[1] != 'fault']
     prev = None
